@@ -10,21 +10,17 @@ Import ListNotations.
 (* what the reading needs of the statement it meets *)
 Definition cond (x : stmt) (st : nst) : Prop :=
   match x with
-  | SInputs _ => n_conns st = [] /\ n_bb st = false /\ n_outn st = []
-  | SOutputs _ | SSub _ _ _ | SNames _ | SLatch _ => n_conns st = [] /\ n_bb st = false
-  | SConn a b =>
-    n_bb st = false /\
-    forall an ai bn bi, nb_of a = Some (an, ai) -> nb_of b = Some (bn, bi) ->
-      an <> bn /\ ~ In an (touched (n_conns st)) /\ ~ In bn (touched (n_conns st))
+  | SInputs _ => n_bb st = false /\ n_outn st = []
+  | SOutputs _ | SSub _ _ _ | SNames _ | SLatch _ | SConn _ _ => n_bb st = false
   | _ => True
   end.
 
 Definition next_bb (b : bool) (x : stmt) : bool :=
   match x with SBlackbox => true | SModel _ => false | _ => b end.
 
-Lemma R_upd_inst nm cur idx f ms st :
-  R nm (get_model nm ms) st -> R nm (get_model nm (upd_model cur (upd_inst idx f) ms)) st.
-Proof. apply R_geq. apply geq_upd_inst. Qed.
+Lemma RX_upd_inst nm c al cur idx f ms st :
+  RX nm c al (get_model nm ms) st -> RX nm c al (get_model nm (upd_model cur (upd_inst idx f) ms)) st.
+Proof. apply RX_geq. apply geq_upd_inst. Qed.
 
 Lemma step_g_other nm cur x st :
   nm <> cur -> (forall c, x = SModel c -> nm <> c) -> step_g nm cur x st = st.
@@ -33,98 +29,115 @@ Proof.
   rewrite (proj2 (str_eqb_false nm nm0)); [reflexivity|]. apply H2. reflexivity.
 Qed.
 
+(* a field of the model that the reading does not look at *)
+Lemma RX_same nm c al m m' st st' :
+  m_cables m' = m_cables m -> n_att st' = n_att st -> n_conns st' = n_conns st -> n_bb st' = n_bb st ->
+  R nm m' st' -> RX nm c al m st -> RX nm c al m' st'.
+Proof. intros E1 E2 E3 E4 HR [_ HN]. split; [exact HR|]. rewrite E1, E2, E3, E4. exact HN. Qed.
+
 Lemma exec_R s x s' nm st :
   J s -> Q (st_models s) -> reserved (s_cur s) = false ->
   exec s x = Ok s' ->
-  R nm (get_model nm (st_models s)) st ->
+  RX nm (s_cur s) (s_merged s) (get_model nm (st_models s)) st ->
   (nm = s_cur s -> cond x st /\ s_isbb s = n_bb st) ->
-  R nm (get_model nm (st_models s')) (step_g nm (s_cur s) x st) /\
+  (forall c, x = SModel c -> nm = c -> n_att st = [] /\ n_conns st = []) ->
+  RX nm (s_cur s') (s_merged s') (get_model nm (st_models s')) (step_g nm (s_cur s) x st) /\
   s_cur s' = next_c (s_cur s) x /\ s_isbb s' = next_bb (s_isbb s) x.
 Proof.
-  intros [HI Hh] HQ Hcr H HR Hc. destruct x; cbn [exec] in H; cbn [next_c next_bb].
+  intros [HI Hh] HQ Hcr H HR Hc Hm. destruct x; cbn [exec] in H; cbn [next_c next_bb].
   - (* comment *) inversion H; subst s'. cbn [step_g]. auto.
   - (* .model *)
-    assert (E : s_cur s' = nm0 /\ s_isbb s' = false /\
+    assert (E : s_cur s' = nm0 /\ s_isbb s' = false /\ s_merged s' = [] /\
                 st_models s' = upd_model nm0 (fun m => set_defined m true) (ensure_model nm0 (st_models s))).
     { destruct (b_top (s_nl s)); inversion H; subst s'; cbn; auto. }
-    destruct E as [E1 [E2 E3]]. split; [|split; assumption]. rewrite E3. cbn [step_g].
-    destruct (str_eqb nm nm0) eqn:E.
+    destruct E as [E1 [E2 [E4 E3]]]. split; [|split; assumption]. rewrite E1, E3, E4. cbn [step_g].
+    apply RX_R in HR. destruct (str_eqb nm nm0) eqn:E.
     + apply str_eqb_spec in E. rewrite <- E. destruct (ensure_model_finds nm (st_models s)) as [m0 Hm0].
       rewrite (get_model_upd_same _ _ _ m0); [|intros y Hy; exact Hy|exact Hm0].
       assert (Em : m0 = get_model nm (st_models s)) by (rewrite <- (get_model_ensure nm (st_models s) nm); symmetry; apply get_model_find; exact Hm0).
-      rewrite Em. destruct HR as [R1 R2 R3 R4 R5 R6 R7 R8 R9]. constructor; auto.
-    + apply str_eqb_false in E. rewrite get_model_upd_other; [|intros y Hy; exact Hy|exact E].
+      rewrite Em. destruct (Hm nm0 eq_refl E) as [A1 A2].
+      destruct HR as [R1 R2 R3 R4 R5 R6 R7 R8]. split; [constructor; auto|].
+      intros _ _. cbn [set_def n_att n_conns set_defined m_cables]. rewrite A1, A2, (R7 A1 A2). apply NI_nil.
+    + apply str_eqb_false in E. apply RX_other; [exact E|]. rewrite get_model_upd_other; [|intros y Hy; exact Hy|exact E].
       rewrite get_model_ensure. exact HR.
   - (* .inputs *)
     apply bind_ok in H as [ms [H1 H2]]. inversion H2; subst s'. rewrite st_models_set_ms. split; [|split; reflexivity].
-    cbn [step_g step_n]. apply (R_do_inputs _ _ _ _ _ _ H1 HR). intro Hn. apply Hc. exact Hn.
+    cbn [step_g step_n s_cur s_merged set_ms set_nl]. apply (R_do_inputs _ _ _ _ _ _ _ H1 HR). intro Hn. apply Hc. exact Hn.
   - (* .outputs *)
     apply bind_ok in H as [ms [H1 H2]]. inversion H2; subst s'. rewrite st_models_set_ms. split; [|split; reflexivity].
-    cbn [step_g step_n]. apply (R_do_outputs _ _ _ _ _ _ _ H1 HR eq_refl). intro Hn. destruct (Hc Hn) as [[C1 C2] _].
-    repeat split; auto. rewrite Hn. exact Hcr.
+    cbn [step_g step_n s_cur s_merged set_ms set_nl]. apply (R_do_outputs _ _ _ _ _ _ _ _ H1 HR eq_refl).
+    intro Hn. destruct (Hc Hn) as [C2 _]. cbn [cond] in C2. split; [exact C2|]. rewrite Hn. exact Hcr.
   - (* .clock *)
     inversion H; subst s'. rewrite st_models_set_ms. split; [|split; reflexivity].
-    assert (R1 : R nm (get_model nm (upd_model (s_cur s) (fun m => set_clock m (Some (match m_clock m with Some c => c | None => [] end ++ l))) (st_models s))) st).
+    cbn [s_cur s_merged set_ms set_nl].
+    assert (R1 : RX nm (s_cur s) (s_merged s) (get_model nm (upd_model (s_cur s) (fun m => set_clock m (Some (match m_clock m with Some c => c | None => [] end ++ l))) (st_models s))) st).
     { rewrite get_model_upd by (intros y Hy; exact Hy). unfold get_model in HR |- *.
       destruct (find_model nm (st_models s)) as [m|]; [|exact HR]. destruct (str_eqb nm (s_cur s)); [|exact HR].
-      destruct HR as [R1 R2 R3 R4 R5 R6 R7 R8 R9]. constructor; auto. }
+      apply (RX_same nm _ _ m _ st st); try reflexivity; [|exact HR]. destruct HR as [[R1 R2 R3 R4 R5 R6 R7 R8] _]. constructor; auto. }
     cbn [step_g step_n]. destruct (str_eqb nm (s_cur s)); exact R1.
   - (* .subckt / .gate *)
-    apply (R_sub s gate ref pairs s' nm st Hh); [cbn [exec]; exact H|exact HR|].
-    intro Hn. destruct (Hc Hn) as [[C1 C2] _]. auto.
+    destruct (R_sub s gate ref pairs s' nm st Hh) as [G1 [G2 [G3 G4]]]; [cbn [exec]; exact H|exact HR| |].
+    + intro Hn. destruct (Hc Hn) as [C2 _]. exact C2.
+    + rewrite G2, G4. auto.
   - (* .names *)
-    apply (R_names s nets s' nm st Hh HQ Hcr); [cbn [exec]; exact H|exact HR|].
-    intro Hn. destruct (Hc Hn) as [[C1 C2] _]. auto.
+    destruct (R_names s nets s' nm st Hh HQ Hcr) as [G1 [G2 [G3 G4]]]; [cbn [exec]; exact H|exact HR| |].
+    + intro Hn. destruct (Hc Hn) as [C2 _]. exact C2.
+    + rewrite G2, G4. auto.
   - (* cover *)
     unfold upd_cur_inst in H. destruct (s_curinst s); [|discriminate]. inversion H; subst s'. rewrite st_models_set_ms.
-    split; [|split; reflexivity]. cbn [step_g step_n]. destruct (str_eqb nm (s_cur s)); apply R_upd_inst; exact HR.
+    split; [|split; reflexivity]. cbn [step_g step_n s_cur s_merged set_ms set_nl].
+    destruct (str_eqb nm (s_cur s)); apply RX_upd_inst; exact HR.
   - (* .latch *)
-    apply (R_latch s toks s' nm st Hh Hcr); [cbn [exec]; exact H|exact HR|].
-    intro Hn. destruct (Hc Hn) as [[C1 C2] _]. auto.
+    destruct (R_latch s toks s' nm st Hh Hcr) as [G1 [G2 [G3 G4]]]; [cbn [exec]; exact H|exact HR| |].
+    + intro Hn. destruct (Hc Hn) as [C2 _]. exact C2.
+    + rewrite G2, G4. auto.
   - (* .param *)
     unfold upd_cur_inst in H. destruct (s_curinst s); [|discriminate]. inversion H; subst s'. rewrite st_models_set_ms.
-    split; [|split; reflexivity]. cbn [step_g step_n]. destruct (str_eqb nm (s_cur s)); apply R_upd_inst; exact HR.
+    split; [|split; reflexivity]. cbn [step_g step_n s_cur s_merged set_ms set_nl].
+    destruct (str_eqb nm (s_cur s)); apply RX_upd_inst; exact HR.
   - (* .cname *)
     destruct (s_curinst s) as [idx|]; [|discriminate]. apply bind_ok in H as [ms1 [H1 H2]]. inversion H2; subst s'.
-    rewrite st_models_set_ms. split; [|split; reflexivity].
-    assert (R1 : R nm (get_model nm ms1) st).
-    { eapply R_geq; [eapply geq_set_inst_name; exact H1|]. apply R_upd_inst. exact HR. }
+    rewrite st_models_set_ms. split; [|split; reflexivity]. cbn [s_cur s_merged set_ms set_nl].
+    assert (R1 : RX nm (s_cur s) (s_merged s) (get_model nm ms1) st).
+    { eapply RX_geq; [eapply geq_set_inst_name; exact H1|]. apply RX_upd_inst. exact HR. }
     cbn [step_g step_n]. destruct (str_eqb nm (s_cur s)); exact R1.
   - (* .attr *)
     unfold upd_cur_inst in H. destruct (s_curinst s); [|discriminate]. inversion H; subst s'. rewrite st_models_set_ms.
-    split; [|split; reflexivity]. cbn [step_g step_n]. destruct (str_eqb nm (s_cur s)); apply R_upd_inst; exact HR.
+    split; [|split; reflexivity]. cbn [step_g step_n s_cur s_merged set_ms set_nl].
+    destruct (str_eqb nm (s_cur s)); apply RX_upd_inst; exact HR.
   - (* .conn *)
     destruct (pni a) as [[an ai]|] eqn:Ea; [|discriminate]. cbn [bind] in H.
     destruct (pni b) as [[bn bi]|] eqn:Eb; [|discriminate]. cbn [bind] in H. apply pni_nb in Ea, Eb.
-    apply bind_ok in H as [ms [H1 H2]]. inversion H2; subst s'. rewrite st_models_set_ms. split; [|split; reflexivity].
-    cbn [step_g step_n]. rewrite Ea, Eb. destruct (str_eqb nm (s_cur s)) eqn:E.
-    + apply str_eqb_spec in E. subst nm. destruct (Hc eq_refl) as [[C1 C2] _].
-      destruct (C2 _ _ _ _ Ea Eb) as [D1 [D2 D3]].
+    apply bind_ok in H as [ms [H1 H2]]. inversion H2; subst s'. rewrite st_models_set_merged, st_models_set_ms. split; [|split; reflexivity].
+    cbn [step_g step_n s_cur s_merged set_merged set_ms set_nl]. rewrite Ea, Eb. destruct (str_eqb nm (s_cur s)) eqn:E.
+    + apply str_eqb_spec in E. subst nm. destruct (Hc eq_refl) as [C1 _]. cbn [cond] in C1.
       destruct (get_model_upd_res_same _ _ _ _ H1) as [m' [G1 [G2 G3]]]; [intros; eapply do_conn_name; eauto|].
-      rewrite G2. apply (R_do_conn _ _ _ _ _ _ _ _ G1); auto.
-      destruct HI as [_ Hall]. apply find_model_In in G3 as [G3 _]. apply (c_cables _ _ (Hall _ G3)).
-    + apply str_eqb_false in E.
+      rewrite G2. apply (R_do_conn _ _ _ _ _ _ _ _ _ G1 C1 HR).
+    + apply str_eqb_false in E. apply RX_other; [exact E|]. apply RX_R in HR.
       rewrite (get_model_upd_res_other _ _ _ _ nm H1); [exact HR|intros; eapply do_conn_name; eauto|exact E].
   - (* .blackbox *)
-    inversion H; subst s'. cbn [st_models s_nl b_models set_models s_cur s_isbb]. split; [|split; reflexivity].
+    inversion H; subst s'. cbn [st_models s_nl b_models set_models s_cur s_isbb s_merged]. split; [|split; reflexivity].
     cbn [step_g step_n]. rewrite get_model_upd by (intros y Hy; exact Hy).
     destruct (str_eqb nm (s_cur s)) eqn:E.
-    + destruct (has_find _ _ Hh) as [m Hm]. apply str_eqb_spec in E. subst nm. rewrite Hm.
-      rewrite (get_model_find _ _ _ Hm) in HR. destruct HR as [R1 R2 R3 R4 R5 R6 R7 R8 R9].
+    + destruct (has_find _ _ Hh) as [m Hm0]. apply str_eqb_spec in E. subst nm. rewrite Hm0.
+      apply RX_R in HR. rewrite (get_model_find _ _ _ Hm0) in HR. destruct HR as [R1 R2 R3 R4 R5 R6 R7 R8].
+      split; [|cbn [n_bb]; intros _ Hf; discriminate].
       constructor; cbn [n_idx n_ins n_inn n_outn n_att n_conns n_bb n_lib n_def set_cables m_insts m_cables m_lib m_defined]; auto;
         try (intro; discriminate).
-    + unfold get_model in HR. destruct (find_model nm (st_models s)); exact HR.
+    + apply str_eqb_false in E. apply RX_other; [exact E|]. apply RX_R in HR.
+      unfold get_model in HR |- *. destruct (find_model nm (st_models s)); exact HR.
   - (* .end *)
     destruct (m_lib (cur_model s)) eqn:El; try discriminate. inversion H; subst s'. clear H.
-    cbn [st_models s_nl b_models set_nl s_cur s_isbb]. split; [|split; reflexivity].
+    cbn [st_models s_nl b_models set_nl s_cur s_isbb s_merged]. split; [|split; reflexivity].
     cbn [step_g step_n]. rewrite get_model_upd by (intros y Hy; exact Hy).
     destruct (str_eqb nm (s_cur s)) eqn:E.
-    + destruct (has_find _ _ Hh) as [m Hm]. apply str_eqb_spec in E. subst nm. unfold st_models in Hm. rewrite Hm.
-      destruct (Hc eq_refl) as [_ C2]. unfold st_models in HR. rewrite (get_model_find _ _ _ Hm) in HR.
-      destruct HR as [R1 R2 R3 R4 R5 R6 R7 R8 R9].
+    + destruct (has_find _ _ Hh) as [m Hm0]. apply str_eqb_spec in E. subst nm. unfold st_models in Hm0. rewrite Hm0.
+      destruct (Hc eq_refl) as [_ C2]. unfold st_models in HR. rewrite (get_model_find _ _ _ Hm0) in HR.
+      apply (RX_same _ _ _ m _ st); try reflexivity; [|exact HR]. destruct HR as [[R1 R2 R3 R4 R5 R6 R7 R8] _].
       constructor; cbn [n_idx n_ins n_inn n_outn n_att n_conns n_bb n_lib n_def set_lib m_insts m_cables m_lib m_defined]; auto.
       rewrite C2. reflexivity.
-    + unfold get_model, st_models in HR |- *. destruct (find_model nm (b_models (s_nl s))); exact HR.
+    + apply str_eqb_false in E. apply RX_other; [exact E|]. apply RX_R in HR.
+      unfold get_model, st_models in HR |- *. destruct (find_model nm (b_models (s_nl s))); exact HR.
   - discriminate.
 Qed.
 
@@ -140,18 +153,18 @@ Proof.
   - apply geq_refl.
 Qed.
 
-Lemma geq_do_input cur ms tok ms' nm :
-  do_input cur (Ok ms) tok = Ok ms' -> nm <> cur -> geq (get_model nm ms) (get_model nm ms').
+Lemma geq_do_input al cur ms tok ms' nm :
+  do_input al cur (Ok ms) tok = Ok ms' -> nm <> cur -> geq (get_model nm ms) (get_model nm ms').
 Proof.
   intros H E. unfold do_input in H. cbn [bind] in H. destruct (pni tok) as [[p i]|]; [|discriminate]. cbn [bind] in H.
-  rewrite (get_model_upd_res_other _ _ _ _ nm H); [|intros; eapply connect_name; eauto|exact E].
+  rewrite (get_model_upd_res_other _ _ _ _ nm H); [|intros; eapply connect_to_name; eauto|exact E].
   eapply geq_trans; [|apply geq_grow_port]. destruct (find_port _ _).
   - rewrite get_model_upd_other; [apply geq_refl|intros x Hx; exact Hx|exact E].
   - apply geq_add_port_other. exact E.
 Qed.
 
-Lemma geq_do_output cur ms tok ms' nm :
-  do_output cur (Ok ms) tok = Ok ms' -> nm <> cur -> geq (get_model nm ms) (get_model nm ms').
+Lemma geq_do_output al cur ms tok ms' nm :
+  do_output al cur (Ok ms) tok = Ok ms' -> nm <> cur -> geq (get_model nm ms) (get_model nm ms').
 Proof.
   intros H E. unfold do_output in H. cbn [bind] in H. destruct (pni tok) as [[p i]|]; [|discriminate]. cbn [bind] in H.
   set (ms1 := match find_port _ _ with None => _ | Some _ => ms end) in H.
@@ -162,7 +175,7 @@ Proof.
     unfold ms1. destruct (find_port _ _); [apply geq_refl|apply geq_add_port_other; exact E]. }
   destruct (_ || _).
   - inversion H; subst ms'. exact G.
-  - rewrite (get_model_upd_res_other _ _ _ _ nm H); [exact G|intros; eapply connect_name; eauto|exact E].
+  - rewrite (get_model_upd_res_other _ _ _ _ nm H); [exact G|intros; eapply connect_to_name; eauto|exact E].
 Qed.
 
 Lemma geq_do_pairs ref pairs nm : forall a a',
@@ -181,8 +194,8 @@ Proof.
   - apply geq_refl.
 Qed.
 
-Lemma geq_conn_one cur ref idx ms fa ms' nm :
-  conn_one cur ref idx (Ok ms) fa = Ok ms' -> nm <> cur -> geq (get_model nm ms) (get_model nm ms').
+Lemma geq_conn_one al cur ref idx ms fa ms' nm :
+  conn_one al cur ref idx (Ok ms) fa = Ok ms' -> nm <> cur -> geq (get_model nm ms) (get_model nm ms').
 Proof.
   intros H E. unfold conn_one in H. cbn [bind] in H.
   destruct (pni (snd fa)) as [[c k]|]; [|discriminate]. cbn [bind] in H.
@@ -190,7 +203,7 @@ Proof.
   destruct (str_eqb c k_unconn).
   - inversion H; subst ms'. apply geq_upd_inst.
   - destruct (find_port _ _); [|discriminate].
-    rewrite (get_model_upd_res_other _ _ _ _ nm H); [apply geq_grow_port|intros; eapply connect_name; eauto|exact E].
+    rewrite (get_model_upd_res_other _ _ _ _ nm H); [apply geq_grow_port|intros; eapply connect_to_name; eauto|exact E].
 Qed.
 
 Lemma geq_inst_tail s ref k nm0 info ms s' nm :
@@ -201,7 +214,7 @@ Proof.
   destruct (match nm0 with Some x => _ | None => _ end) as [name tbl].
   apply bind_ok in H as [ms1 [H1 H]]. apply bind_ok in H as [ms2 [H2 H]]. inversion H; subst s'. clear H.
   cbn [st_models s_nl b_models set_models].
-  eapply geq_trans; [|apply (geq_fold (conn_one (s_cur s) ref (length (m_insts (get_model (s_cur s) ms)))) nm info); [reflexivity| |exact H2]].
+  eapply geq_trans; [|apply (geq_fold (conn_one (s_merged s) (s_cur s) ref (length (m_insts (get_model (s_cur s) ms)))) nm info); [reflexivity| |exact H2]].
   - eapply geq_trans; [|eapply geq_set_inst_name; exact H1]. rewrite get_model_add_child_other; [apply geq_refl|exact E].
   - intros a x a' A. eapply geq_conn_one; eauto.
 Qed.
@@ -233,9 +246,9 @@ Proof.
     { destruct (b_top (s_nl s)); inversion H; subst s'; cbn; auto. }
     rewrite E3, get_model_upd_other; [|intros y Hy; exact Hy|exact Ha]. rewrite get_model_ensure. apply geq_refl.
   - apply bind_ok in H as [ms [H1 H2]]. inversion H2; subst s'. rewrite st_models_set_ms.
-    apply (geq_fold (do_input (s_cur s)) nm l); [reflexivity| |exact H1]. intros a x a' A. eapply geq_do_input; eauto.
+    apply (geq_fold (do_input (s_merged s) (s_cur s)) nm l); [reflexivity| |exact H1]. intros a x a' A. eapply geq_do_input; eauto.
   - apply bind_ok in H as [ms [H1 H2]]. inversion H2; subst s'. rewrite st_models_set_ms.
-    apply (geq_fold (do_output (s_cur s)) nm l); [reflexivity| |exact H1]. intros a x a' A. eapply geq_do_output; eauto.
+    apply (geq_fold (do_output (s_merged s) (s_cur s)) nm l); [reflexivity| |exact H1]. intros a x a' A. eapply geq_do_output; eauto.
   - inversion H; subst s'. rewrite st_models_set_ms. rewrite get_model_upd_other; [apply geq_refl|intros y Hy; exact Hy|exact E].
   - apply bind_ok in H as [s1 [H1 H]]. destruct (check_hierarchy_models _ _ _ H1) as [E1 E2].
     apply bind_ok in H as [[ms1 info] [H2 H]].
@@ -260,7 +273,7 @@ Proof.
   - unfold upd_cur_inst in H. destruct (s_curinst s); [|discriminate]. inversion H; subst s'. rewrite st_models_set_ms. apply geq_upd_inst.
   - destruct (pni a) as [[an ai]|]; [|discriminate]. cbn [bind] in H.
     destruct (pni b) as [[bn bi]|]; [|discriminate]. cbn [bind] in H.
-    apply bind_ok in H as [ms [H1 H2]]. inversion H2; subst s'. rewrite st_models_set_ms.
+    apply bind_ok in H as [ms [H1 H2]]. inversion H2; subst s'. rewrite st_models_set_merged, st_models_set_ms.
     rewrite (get_model_upd_res_other _ _ _ _ nm H1); [apply geq_refl|intros; eapply do_conn_name; eauto|exact E].
   - inversion H; subst s'. cbn [st_models s_nl b_models set_models].
     rewrite get_model_upd_other; [apply geq_refl|intros y Hy; exact Hy|exact E].
@@ -290,3 +303,4 @@ Proof.
     + apply Hother. cbn [aside]. intro E. apply Ek. apply lg_inj. exact E.
   - apply Hother. cbn [aside]. apply lg_not_latch.
 Qed.
+
